@@ -84,7 +84,8 @@ def main():
         sh(f"git -C /repo worktree remove --force {wt}")
     dst = os.path.join(VERIF, "benign", bid)
     os.makedirs(dst, exist_ok=True)
-    shutil.copy(patch, os.path.join(dst, "patch.diff"))
+    if os.path.abspath(patch) != os.path.abspath(os.path.join(dst, "patch.diff")):  # (re-evaluating a stored rewrite in place)
+        shutil.copy(patch, os.path.join(dst, "patch.diff"))
     meta.update({"id": bid, "confirmation": conf, "checks": results,
                  "quiet": bool(results) and all(r["exit"] == 0 for r in results.values()),
                  "ran": "tools/eval_benign.py: pytest and the quick checks of every property anchored in a touched file, "
